@@ -142,8 +142,8 @@ def _check_message(ctx, ids, bits, n_subsets):
         if order != list(range(n)):
             return {'what': 'document order of the hierarchical view is not the flat order', 'subset': s, 'order': order}
     for name, render, convert in (('flat text', FlatTextRenderer(), flat_text_to_flat_json),
-                                  ('nested text', NestedTextRenderer(), nested_text_to_flat_json),
-                                  ('nested json', NestedJsonRenderer(), nested_json_to_flat_json)):
+                                  ('nested json', NestedJsonRenderer(), nested_json_to_flat_json),
+                                  ('nested text', NestedTextRenderer(), nested_text_to_flat_json)):
         try:
             text = render.render(msg)
         except Exception as e:
